@@ -231,6 +231,61 @@ structure SubOK (m' : Model (Ext K)) (r : SubVerdict K) : Prop where
     ∀ M : K, ∃ (ρ : String → K) (v : K), srcFeasible m' ρ = true ∧ eval ρ m'.objective = some v ∧
       better m'.optType v M = true
 
+/-- when the declarations are enumerable, every used declaration is an enumerated one. -/
+theorem enumerated_of_assignments : ∀ (ds : List (DomVar (Ext K))) (asg : List (List (String × K))),
+    assignments ds = some asg → ∀ d ∈ ds, d.usage ≠ 0 → enumerated d = true
+  | [], _, _, d, hd, _ => by cases hd
+  | d0 :: ds, asg, h, d, hd, hu => by
+    unfold assignments at h
+    by_cases hu0 : d0.usage = 0
+    · simp only [hu0, beq_self_eq_true, if_true] at h
+      rcases List.mem_cons.1 hd with rfl | hd'
+      · exact absurd hu0 hu
+      · exact enumerated_of_assignments ds asg h d hd' hu
+    · have hu0' : (d0.usage == 0) = false := by simpa using hu0
+      simp only [hu0', Bool.false_eq_true, if_false] at h
+      cases hv : domainValues d0.ty with
+      | none => simp [hv] at h
+      | some vs =>
+        cases hr : assignments ds with
+        | none => simp [hv, hr] at h
+        | some rest =>
+          rcases List.mem_cons.1 hd with rfl | hd'
+          · simp [enumerated, hu0, hv]
+          · exact enumerated_of_assignments ds rest hr d hd' hu
+
+/-- **the contract is met by plain evaluation when nothing continuous is left**: for a closed model whose used
+declarations are all enumerable, every residual is variable-free — its feasibility and objective do not depend on the
+assignment — so `subConst` (evaluate once) satisfies `SubOK`.  In particular `SubOK` is satisfiable for every residual of
+every discrete model, and `refSolveMixed subConst` decides discrete models on its own. -/
+theorem subConst_ok {m : Model (Ext K)} {asg : List (List (String × K))} (hasg : assignments m.domain = some asg)
+    (hc : Closed m = true) (hnd : (m.domain.map (·.name)).Nodup) {a : List (String × K)}
+    (ha : a ∈ discreteAssignments m.domain) : SubOK (residual a m) (subConst (residual a m)) := by
+  have hfix := discreteAssignments_fixes hnd ha
+  -- feasibility and objective of the residual are the model's at `lookup a`, whatever `ρ`
+  have hagree : ∀ ρ : String → K, AgreeOn m.domain (over a ρ) (lookup a) := by
+    intro ρ d hd hu
+    have he := enumerated_of_assignments m.domain asg hasg d hd (by omega)
+    simp [over_apply, (hfix.bound_enum d hd he).1]
+  have hfeas : ∀ ρ : String → K, srcFeasible (residual a m) ρ = srcFeasible m (lookup a) := fun ρ => by
+    rw [srcFeasible_residual hfix ρ, srcFeasible_congr hc (hagree ρ)]
+  have hobj : ∀ ρ : String → K, eval ρ (residual a m).objective = eval (lookup a) m.objective := fun ρ => by
+    rw [objective_residual, objective_congr hc (hagree ρ)]
+  unfold subConst
+  rw [hfeas, hobj]
+  by_cases hf : srcFeasible m (lookup a) = true
+  · simp only [hf, if_true]
+    cases hv : eval (lookup a) m.objective with
+    | none => exact ⟨(fun h => by cases h), (fun v w h => by cases h), (fun h => by cases h)⟩
+    | some v =>
+      refine ⟨(fun h => by cases h), (fun v' w' h => ?_), (fun h => by cases h)⟩
+      cases h
+      refine ⟨by rw [hfeas]; exact hf, by rw [hobj]; exact hv, fun ρ _ v' hv' => ?_⟩
+      rw [hobj, hv] at hv'; cases hv'
+      exact better_irrefl _ _
+  · simp only [hf, Bool.false_eq_true, if_false]
+    refine ⟨(fun _ ρ => by rw [hfeas]; simpa using hf), (fun v w h => by cases h), (fun h => by cases h)⟩
+
 /-- the (value, witness) pairs `refSolveMixed` runs `best` on. -/
 noncomputable def mixedVals (sub : Model (Ext K) → SubVerdict K) (m : Model (Ext K)) : List (K × List (String × K)) :=
   ((discreteAssignments m.domain).map fun a => (a, sub (residual a m))).filterMap fun r =>
